@@ -49,8 +49,11 @@ def gen_case(rng):
         roles = []
         for _ in range(rng.randint(1, 4)):
             q = rng.random()
-            if q < 0.35:
+            if q < 0.3:
                 roles.append(casevar(rng, x))
+            elif q < 0.36:
+                # a role name is compared whole: surrounding white space is part of it
+                roles.append(rng.choice([' ', '\t', '']) + casevar(rng, x) + rng.choice([' ', '\n', ' ']))
             elif q < 0.5:
                 roles.append(x + rng.choice(ALPHABET))
             elif q < 0.6 and len(x) > 1:
